@@ -18,6 +18,9 @@ use crate::{common::*, vops::*};
 pub enum HOp {
     V(VOp),
     Sub { batched: bool },
+    /// subscribe now, turn the VectorSubscriber into a stream only at its first poll; `values`: through
+    /// into_values_and_(batched_)stream instead of into_(batched_)stream
+    SubLazy { batched: bool, values: bool },
     /// poll subscriber `sub` up to `max` times (0 = until Pending/None)
     Poll { sub: usize, max: usize },
     DropSub(usize),
@@ -32,6 +35,11 @@ impl HOp {
         match self {
             HOp::V(op) => op.show(),
             HOp::Sub { batched } => format!("subscribe({})", if *batched { "batched" } else { "plain" }),
+            HOp::SubLazy { batched, values } => format!(
+                "subscribe({}, converted at the first poll via {})",
+                if *batched { "batched" } else { "plain" },
+                if *values { "into_values_and_*stream" } else { "into_*stream" }
+            ),
             HOp::Poll { sub, max } => {
                 if *max == 0 {
                     format!("drain(s{sub})")
@@ -96,11 +104,14 @@ pub struct Facts {
     pub subs: u64,
     pub batched_items: u64,
     pub receiverless_ops: u64,
+    pub lazy_subs: u64,
 }
 
 enum SubStream {
     U(Pin<Box<VectorSubscriberStream<Tracked>>>),
     B(Pin<Box<VectorSubscriberBatchedStream<Tracked>>>),
+    /// not converted yet (batched?, through the values-returning constructor?)
+    Raw(Option<eyeball_im::VectorSubscriber<Tracked>>, bool, bool),
 }
 
 struct Sub {
@@ -113,6 +124,9 @@ struct Sub {
     pending: Option<(Arc<FlagWaker>, usize)>,
     ended: bool,
     lagged: bool,
+    /// message positions the values handed out at a late conversion may correspond to (resolved by the first
+    /// item or the first Pending)
+    cands: Vec<usize>,
 }
 
 struct Mon {
@@ -236,6 +250,61 @@ impl Mon {
             if s.ended {
                 // after the end, further polls must keep answering None
             }
+            if let Some(SubStream::Raw(raw, batched, values)) = s.stream.as_mut() {
+                // late conversion
+                let sub = raw.take().unwrap();
+                let (batched, values) = (*batched, *values);
+                let snap_now = items_of(sub.values().iter());
+                if vals(&snap_now) != vals(&s.replica) {
+                    return div("C05", format!("values() of an unconverted subscriber changed from {:?} to {:?}", vals(&s.replica), vals(&snap_now)));
+                }
+                let (handed, stream) = match (batched, values) {
+                    (false, false) => (None, SubStream::U(Box::pin(sub.into_stream()))),
+                    (true, false) => (None, SubStream::B(Box::pin(sub.into_batched_stream()))),
+                    (false, true) => {
+                        let (v, st) = sub.into_values_and_stream();
+                        (Some(items_of(v.iter())), SubStream::U(Box::pin(st)))
+                    }
+                    (true, true) => {
+                        let (v, st) = sub.into_values_and_batched_stream();
+                        (Some(items_of(v.iter())), SubStream::B(Box::pin(st)))
+                    }
+                };
+                s.stream = Some(stream);
+                if let Some(v) = handed {
+                    // the values handed out must be a state the vector had since subscribe(): normally the
+                    // snapshot of that moment; an implementation may hand out a fresher one and fewer diffs
+                    let mut st = s.replica.clone();
+                    let mut cands = vec![];
+                    if vals(&st) == vals(&v) {
+                        cands.push(s.pos_msg);
+                    }
+                    for k in s.pos_msg..n_msgs {
+                        let mut ok = true;
+                        for d in &self.msgs[k] {
+                            if d.checked_apply(&mut st).is_err() {
+                                ok = false;
+                                break;
+                            }
+                        }
+                        if !ok {
+                            break;
+                        }
+                        if vals(&st) == vals(&v) {
+                            cands.push(k + 1);
+                        }
+                    }
+                    if cands.is_empty() {
+                        return div(
+                            "C05|C06",
+                            format!("into_values_and_*stream of s{i} handed out {:?}, which is no state the vector had since this subscriber was created (then: {:?})", vals(&v), vals(&s.replica)),
+                        );
+                    }
+                    s.replica = v;
+                    s.pos_msg = cands[0];
+                    s.cands = cands;
+                }
+            }
             let Some(stream) = s.stream.as_mut() else { return Ok(()) };
             let (flag, w) = flag_waker();
             let mut cx = Context::from_waker(&w);
@@ -246,7 +315,29 @@ impl Mon {
             let res: Poll<Option<Vec<D>>> = match stream {
                 SubStream::U(st) => st.as_mut().poll_next(&mut cx).map(|o| o.map(|d| vec![D::of(&d)])),
                 SubStream::B(st) => st.as_mut().poll_next(&mut cx).map(|o| o.map(|b| to_ds(&b))),
+                SubStream::Raw(..) => unreachable!("converted above"),
             };
+            // a late conversion with several possible positions: the first answer tells which one it was
+            if s.cands.len() > 1 {
+                let cands = std::mem::take(&mut s.cands);
+                let pick = match &res {
+                    Poll::Ready(Some(ds)) => cands.iter().copied().find(|c| {
+                        if s.batched {
+                            let e: Vec<&D> = self.msgs[*c..].iter().flatten().collect();
+                            e.len() == ds.len() && e.iter().zip(ds.iter()).all(|(a, b)| b.same_values(a))
+                        } else {
+                            self.msgs.get(*c).and_then(|m| m.first()).map_or(false, |e| ds[0].same_values(e))
+                        }
+                    }),
+                    _ => cands.iter().copied().find(|c| *c == n_msgs),
+                };
+                if let Some(c) = pick {
+                    s.pos_msg = c;
+                }
+            } else {
+                s.cands.clear();
+            }
+            let undelivered = n_msgs - s.pos_msg;
             // C14: never ready again without the waker of the last Pending poll having been woken
             if let Some((pflag, _)) = &s.pending {
                 if res.is_ready() && !pflag.woken() {
@@ -315,6 +406,7 @@ impl Mon {
                         let again = match s.stream.as_mut().unwrap() {
                             SubStream::U(st) => st.as_mut().poll_next(&mut cx2).map(|o| o.is_some()),
                             SubStream::B(st) => st.as_mut().poll_next(&mut cx2).map(|o| o.is_some()),
+                            SubStream::Raw(..) => unreachable!("converted at the first poll"),
                         };
                         if again == Poll::Ready(true) {
                             return div("C08", format!("subscriber s{i} yielded another item after its end"));
@@ -371,8 +463,10 @@ impl Mon {
                         // must be the concatenation of everything pending
                         let expect: Vec<D> = self.msgs[s.pos_msg..].iter().flatten().cloned().collect();
                         if ds.len() != expect.len() || ds.iter().zip(&expect).any(|(a, b)| !a.same_values(b)) {
+                            // a subscriber that is behind beyond the capacity must get a Reset (C06)
+                            let tag = if undelivered > cap { "C05|C06" } else { "C05" };
                             return div(
-                                "C05",
+                                tag,
                                 format!("batched s{i} received {} but the pending messages are {}", show_diffs(&ds), show_diffs(&expect)),
                             );
                         }
@@ -396,8 +490,9 @@ impl Mon {
                         match expect {
                             Some(e) if d.same_values(e) => {}
                             other => {
+                                let tag = if undelivered > cap { "C05|C06" } else { "C05" };
                                 return div(
-                                    "C05",
+                                    tag,
                                     format!(
                                         "s{i} received {} but the next undelivered diff is {}",
                                         d.show(),
@@ -503,6 +598,30 @@ fn run_inner(h: &VecHistory, deferred: std::rc::Rc<std::cell::RefCell<Option<Str
                     pending: None,
                     ended: false,
                     lagged: false,
+                    cands: vec![],
+                });
+            }
+            HOp::SubLazy { batched, values } => {
+                let Some(obr) = ob.as_ref() else { continue };
+                mon.ensure_ref(obr);
+                let sub = obr.subscribe();
+                let snap = items_of(sub.values().iter());
+                let now = contents(obr);
+                if vals(&snap) != vals(&now) {
+                    return div("C05", format!("snapshot {:?} != contents {:?} at subscribe", vals(&snap), vals(&now)));
+                }
+                mon.facts.subs += 1;
+                mon.facts.lazy_subs += 1;
+                mon.subs.push(Sub {
+                    stream: Some(SubStream::Raw(Some(sub), *batched, *values)),
+                    batched: *batched,
+                    replica: snap,
+                    pos_msg: mon.msgs.len(),
+                    pos_diff: 0,
+                    pending: None,
+                    ended: false,
+                    lagged: false,
+                    cands: vec![],
                 });
             }
             HOp::Poll { sub, max } => {
@@ -849,9 +968,16 @@ pub fn gen_vec_history(rng: &mut Rng, g: &GenCfg) -> VecHistory {
     let mut ops = vec![];
     let mut n_subs = 0usize;
     // usually start with one or two subscribers
+    let sub_op = |rng: &mut Rng| {
+        if rng.chance(1, 3) {
+            HOp::SubLazy { batched: rng.chance(1, 2), values: rng.chance(1, 2) }
+        } else {
+            HOp::Sub { batched: rng.chance(1, 2) }
+        }
+    };
     for _ in 0..rng.below(3) {
         if n_subs < g.max_subs {
-            ops.push(HOp::Sub { batched: rng.chance(1, 2) });
+            ops.push(sub_op(rng));
             n_subs += 1;
         }
     }
@@ -860,7 +986,7 @@ pub fn gen_vec_history(rng: &mut Rng, g: &GenCfg) -> VecHistory {
     for _ in 0..n_ops {
         let r = rng.below(100);
         if r < 6 && n_subs < g.max_subs {
-            ops.push(HOp::Sub { batched: rng.chance(1, 2) });
+            ops.push(sub_op(rng));
             n_subs += 1;
             continue;
         }
@@ -961,6 +1087,7 @@ pub fn record_facts(ev: &mut Ev, f: &Facts) {
     ev.add("pending_subscribers_woken_by_drop", f.woken_by_drop);
     ev.add("wake_obligations_checked", f.wakes_checked);
     ev.add("subscribers", f.subs);
+    ev.add("subscribers_converted_to_a_stream_only_at_their_first_poll", f.lazy_subs);
     ev.add("batched_items", f.batched_items);
     ev.add("operations_without_any_receiver", f.receiverless_ops);
 }
